@@ -304,6 +304,17 @@ def run_c13(tier, seed, wd, info, verdict):
             scs.append(dict(a, id=sid, account="DW/f%d" % k, faults=[dict(a["faults"][0]), dict(b["faults"][0])]))
             meta[sid] = scs[-1]
     by = run_parallel(scs, wd, "c13")
+    # a generation that never ended (no answer to the client within 40 s) is run again on its own before anything is concluded
+    hung = [sc for sc in scs if any(e["ev"] == "Outcome" and e.get("hung") for e in by.get(sc["id"], []))]
+    unreproduced = []
+    for sc in hung[:6]:
+        ev2, rc2, err2 = run_dkgdrv([sc], wd, "c13again_" + sc["id"], timeout=300)
+        evs2 = split_scenarios(ev2).get(sc["id"], [])
+        if not any(e["ev"] == "Outcome" and e.get("hung") for e in evs2) and any(e["ev"] == "End" for e in evs2):
+            unreproduced.append(sc["id"])
+            by[sc["id"]] = evs2
+    if unreproduced:
+        raise Inconclusive("generation(s) %s got no answer once, but did when run again" % unreproduced)
     lines, index = [], []
     mustfail = MUSTFAIL_MSG | {"share-replaced", "share-otherid", "vvec-alter", "vvec-short", "vvec-empty", "vvec-double", "vvec-long-key", "vvec-long-identity", "vvec-long-poly", "vvec-short-poly"}
     reached, distinct = 0, set()
